@@ -359,11 +359,16 @@ CHECKS = {
         assumptions=["values are JSON-serialisable (they arrive by JSON-RPC)", "kill = SIGKILL of the process; no power loss (page cache survives)"],
     ),
     "C11": dict(
-        pkg=".", hdir="root", test="TestVerif_C11S?", ids=["C11", "C11S"], wal=True,
-        quick=dict(shards=32, checks=1, per_test={"TestVerif_C11": 200, "TestVerif_C11S": 5}, timeout=900),
-        thorough=dict(shards=32, checks=1, per_test={"TestVerif_C11": 4500, "TestVerif_C11S": 150}, timeout=5400),
+        pkg=".", hdir="root", test="TestVerif_C11[SW]?", ids=["C11", "C11S", "C11W"], wal=True,
+        quick=dict(shards=32, checks=1, per_test={"TestVerif_C11": 200, "TestVerif_C11S": 5, "TestVerif_C11W": 40}, timeout=900),
+        thorough=dict(shards=32, checks=1, per_test={"TestVerif_C11": 4500, "TestVerif_C11S": 150, "TestVerif_C11W": 1500}, timeout=5400),
         technique="stateful property-based testing (rapid) of the real SourceControl + Start/CoreLoop: watchdog with goroutine-dump quiescence test, progress counter, enter/exit monitor around block processing and request application",
-        rule="(S) requests of a second client connection while a Start is still sampling its device (real SourceControl + ROACH source over "
+        rule="(W) raw JSON-RPC sessions of 2-9 requests written to a TCP connection of the real RunRPCServer: valid requests, requests that can be "
+             "read but not served (unknown method/service, parameters of the wrong type or shape), text that is not JSON, requests cut into two TCP "
+             "writes or sent without waiting for the previous answer: every request with a well-formed envelope is answered in order with its id (or, "
+             "after something malformed, the connection is closed), never silence; a new connection is served afterwards; non-trivial = a request "
+             "follows a malformed one. "
+             "(S) requests of a second client connection while a Start is still sampling its device (real SourceControl + ROACH source over "
              "loopback, device silent for 0-700 ms): each is answered, and after a successful Start valid requests and Stop are served. "
              "(main) rapid-generated request histories (requests before start, 2-14 while running, 1-4 after the source stopped or ended itself, optionally a "
              "restart and more) from one client against a real SourceControl: ConfigureTriggers (indices in/out of range/negative/empty, all trigger kinds "
